@@ -226,6 +226,12 @@ def forkInherit (parent : Option Int) (childFolds : List (Option Int)) (used : B
   let child := boundAll none childFolds
   (if used then boundCut parent child else parent, child)
 
+/-- the deadline `additionalAnswer` folds into the request tree when an alias
+adopts the NXDOMAIN of its target: the denial's own cache lifetime
+(`boundRequestTo(ctx, now + CalculateCacheTTL(respCname, TypeNXDomain))`). -/
+def adoptedDenialBound (cfg : Cfg) (denial : Msg) (now : Int) : Int :=
+  now + calculateCacheTTL cfg denial .nxdomain now
+
 /-- the cut a (re-)admitted entry gets: the upstream lease of its own
 resolution folded with the hard expiry of every cached piece the composed
 answer consumed. -/
